@@ -167,13 +167,25 @@ impl<'a, R, C> Cache<super::Patches<'a, R>, C> {
 
     /// Remove the given `id` from the [`super::Patches`] storage, and
     /// removing the entry from the `cache`.
+    ///
+    /// Nb. Only the signer's reference to the patch is removed from storage. If
+    /// other peers still hold the patch, it still evaluates from their references,
+    /// and the `cache` keeps what that evaluation yields.
     pub fn remove<G>(&mut self, id: &PatchId, signer: &Device<G>) -> Result<(), super::Error>
     where
         G: crypto::signature::Signer<crypto::Signature>,
         R: ReadRepository + SignRepository + cob::Store<Namespace = NodeId>,
-        C: Remove<Patch>,
+        C: Update<Patch> + Remove<Patch>,
     {
         self.store.remove(id, signer)?;
+        if let Ok(Some(patch)) = self.store.get(id) {
+            self.update(&self.rid(), id, &patch)
+                .map_err(|e| super::Error::CacheUpdate {
+                    id: *id,
+                    err: e.into(),
+                })?;
+            return Ok(());
+        }
         self.cache
             .remove(id)
             .map_err(|e| super::Error::CacheRemove {
